@@ -43,6 +43,10 @@ CLAIMED = {
             "Kernel-checked about the code's own determinants: value = (x1-x3)(x2-x4)/((x1-x4)(x2-x3)) cross-multiplied, the Gram determinant / det[o,a,b] cancels; symmetries of the closed form; cr = -1 for the harmonic parameter; the quadrilateral construction returns the harmonic conjugate for any auxiliary point. Tied by differential runs (points 2-D/3-D, from a point, concurrent lines with vertices on axes / at infinity, coaxial planes, invariance under random projective maps, NotCollinear / NotConcurrent, harmonic_set incl. special lines).",
             NOTE_COMMON + "Coaxial planes and 3-D harmonic_set go through basis matrices (correspondence only).",
             "DESIGN.md 7/C11"),
+    "C12": ("Lean 4: verified may-point-to checker for an alias/effect IR (soundness by induction over executions: any branches, unbounded loop iterations, any aliasing) applied by `decide +kernel` to the write-site IR regenerated from geometer/**.py on every run; history differential with byte-wise snapshot monitor of all operands, module constants and caches",
+            "Kernel-checked: if the checker accepts a function's IR then every execution writes only into buffers allocated inside the function (theorem T12_2_check_sound), and it accepts all 26 functions with in-place array writes of the current tree (T12_2_all_write_sites_local, regenerated IR). Tied dynamically: random histories of ~70 public operations on a shared pool with a snapshot comparison after every call and re-asking of every query at the end and on a fresh pool (shrunk to the culprit).",
+            "Trusted: Lean kernel + standard axioms; the IR extraction and its alias/fresh classification table (tools/effects.py), cross-checked by the dynamic monitor; numpy view/copy semantics; Tensor.__setitem__, TensorDiagram.add_node/add_edge and `out=` parameters are documented mutators and excluded.",
+            "DESIGN.md 7/C12"),
     "C13": ("Lean 4: the bracket formula of Conic.from_points is regenerated from curve.py and proved to vanish on all five points (ring, any commutative ring); Ellipse / Sphere matrix = Cartesian locus, centre / radius read-back (field_simp); correspondence: every constructor on lattice / Pythagorean data with exact on/off decisions from the S-layer quadratic form",
             "Kernel-checked about the code's own formula: pᵀ(m+mᵀ)p = 0 for p in {a,b,c,d,e}; the assembled ellipse / sphere matrices cut out exactly ((x-cx)/hr)²+((y-cy)/vr)² = 1 resp. |x-c|² = r². Tied by differential runs: from_points / from_crossratio / from_tangent (incl. tangents through the origin) / from_foci; Circle, Ellipse, Sphere with centres of any homogeneous scale (points on the locus contained, near misses rejected, centre/radius/foci/area/volume); Cone and Cylinder with rational orthonormal frames in all octants.",
             NOTE_COMMON + "from_tangent, from_foci, foci, Cone/Cylinder alignment and the measures are decided by correspondence only (csqrt/eigvalsh/rotation trusted).",
